@@ -26,6 +26,11 @@ func (channel *Channel) channelOpen(method *amqp.ChannelOpen) (err *amqp.Error) 
 		return amqp.NewConnectionError(amqp.ChannelError, "channel already open", method.ClassIdentifier(), method.MethodIdentifier())
 	}
 
+	if channel.status == channelClosed {
+		// the channel number is being used again: start from the state of a new channel
+		channel.reset()
+	}
+
 	channel.SendMethod(&amqp.ChannelOpenOk{})
 	channel.status = channelOpen
 
